@@ -11,7 +11,7 @@ J1  TLC, module ProbSpace: for every primitive of tsdate/discrete.py that differ
 J2  every case is replayed into the real methods of both classes: each must return what the
     specification's linear resp. logarithmic operator returns (class and value, rel 1e-12).
     The InsideOutside instances of C10 bind the composite passes in both spaces.
-J3  pairs of real runs (tsdate.inside_outside, tsdate.maximization) in linear and logarithmic
+Real pairs of runs (tsdate.inside_outside, tsdate.maximization) in linear and logarithmic
     space on simulated inputs: node times, posteriors (inside_outside) and chosen timepoints
     (maximization, unless within 1e-9 of an arg-max tie) agree (rtol 1e-7); guard from the
     statement: pairs where the linear run has 0 / inf / NaN in inside, outside or g_i where
